@@ -2,7 +2,9 @@ package c03
 
 import (
 	"fmt"
+	"hash/fnv"
 	"math/rand"
+	"os"
 	"regexp"
 	"sort"
 	"strings"
@@ -67,12 +69,15 @@ type stat struct {
 	hookOn   atomic.Bool
 	hookMu   sync.Mutex
 	hookPct  int
-	script   []func() // forced interleavings: script[k] runs at the k-th hooked call (nil = nothing)
-	scriptAt int
+	script   []*scripted // forced interleavings of the directed shapes
+	scriptAt int         // hooked calls seen since the script was armed
 	busy     map[string]bool
 
-	createChecks int
-	panics       []string
+	createChecks     int
+	midflightRemoval bool           // a NodeClaim finished terminating (and cluster state was told) while another reconcile was in flight
+	failedDriftStart bool           // a disruption reconcile failed in Queue.markDisrupted
+	mdFaults         []*world.Fault // fault plans aimed at markDisrupted's patches
+	panics           []string
 }
 
 func (d *stat) step(format string, a ...any) {
@@ -112,6 +117,8 @@ func (d *stat) build() {
 }
 
 // ---- panics ----
+
+var nameRe = regexp.MustCompile(`static-\d-[a-z0-9]{5}`)
 
 var karpFrame = regexp.MustCompile(`sigs\.k8s\.io/karpenter/pkg/([^\s(]+(?:\(\*?[A-Za-z0-9_\[\]\.]+\))?[^\s(]*)\(`)
 
@@ -269,12 +276,13 @@ func (d *stat) countCheck(where string, creator string) {
 		if creator != "" {
 			during = "create-during-" + d.busyKinds()
 		}
-		// diagnosis: does Karpenter's own accounting know about every NodeClaim object of the pool?
-		a, del, pend := d.e.Cluster.NodePoolState.GetNodeCount(p)
-		cause := "nodepoolstate-consistent"
-		if int64(a+del+pend) < n {
-			cause = "nodepoolstate-undercounts"
+		// history class: did a NodeClaim of some pool finish terminating while a reconcile was in flight?
+		d.mu.Lock()
+		cause := "no-midflight-claim-removal"
+		if d.midflightRemoval {
+			cause = "after-midflight-claim-removal"
 		}
+		d.mu.Unlock()
 		key := "static-node-limit-exceeded:" + cause
 		d.mu.Lock()
 		dup := d.reported["limit"+p]
@@ -465,7 +473,14 @@ func (d *stat) stepDeprov(pool string) {
 func (d *stat) stepDisrupt() {
 	d.withBusy("disrupt", func() {
 		d.r.Inc("static_disruption_reconciles")
-		d.guard("disruption.Reconcile", func() { _, _ = d.disr.Reconcile(d.e.Ctx) })
+		d.guard("disruption.Reconcile", func() {
+			if _, err := d.disr.Reconcile(d.e.Ctx); err != nil && strings.Contains(err.Error(), "marking disrupted") {
+				d.mu.Lock()
+				d.failedDriftStart = true
+				d.mu.Unlock()
+				d.r.Inc("static_drift_start_failures")
+			}
+		})
 	})
 }
 
@@ -520,13 +535,17 @@ func (d *stat) pre(verb string, obj any) {
 		return // a hook action is already running (possibly further up this very stack)
 	}
 	defer d.hookMu.Unlock()
-	if d.scriptAt < len(d.script) {
-		f := d.script[d.scriptAt]
+	if d.script != nil {
+		k := d.scriptAt
 		d.scriptAt++
-		if f != nil {
+		for _, sc := range d.script {
+			if sc.done || !(sc.at == k || (sc.pred != nil && sc.pred(verb, obj))) {
+				continue
+			}
+			sc.done = true
 			d.r.Inc("static_interleaved_actions")
-			d.step("  [interleaved at %s %T, scripted]", verb, obj)
-			f()
+			d.step("  [interleaved at hooked call %d: %s %T, scripted]", k, verb, obj)
+			sc.f()
 		}
 		return
 	}
@@ -540,6 +559,25 @@ func (d *stat) pre(verb string, obj any) {
 	}
 }
 
+// scripted is one forced interleaving: f runs inside the first hooked API call that is the at-th one (at >= 0)
+// or satisfies pred.
+type scripted struct {
+	at   int
+	pred func(verb string, obj any) bool
+	f    func()
+	done bool
+}
+
+func isNodePoolGet(verb string, obj any) bool {
+	_, ok := obj.(*v1.NodePool)
+	return ok && verb == "get"
+}
+
+func isNodeClaimCreate(verb string, obj any) bool {
+	_, ok := obj.(*v1.NodeClaim)
+	return ok && verb == "create"
+}
+
 // finalizeAndNotify: a deleting NodeClaim finishes terminating and the watch event reaches cluster state.
 func (d *stat) finalizeAndNotify(name string) {
 	nc := d.claim(name)
@@ -547,6 +585,11 @@ func (d *stat) finalizeAndNotify(name string) {
 		return
 	}
 	nodeName := nc.Status.NodeName
+	d.mu.Lock()
+	if len(d.busy) > 0 {
+		d.midflightRemoval = true
+	}
+	d.mu.Unlock()
 	d.guard("lifecycle.finalize("+name+")", func() { finalizeClaim(d.e, name) })
 	d.guard("informer(delete "+name+")", func() { d.deliverFor(name, nodeName) })
 }
@@ -635,6 +678,7 @@ func (d *stat) setFault() {
 		f = &world.Fault{AtCall: 1, Kind: kind, Sticky: true, Match: func(verb, k, caller string) bool {
 			return (verb == "status-patch" && k == "NodeClaim" && strings.Contains(caller, "markDisrupted")) || (verb == "patch" && k == "Node" && strings.Contains(caller, "RequireNoScheduleTaint"))
 		}}
+		d.mdFaults = append(d.mdFaults, f)
 		d.step("fault: sticky %s on markDisrupted taint / condition patches", kind)
 		d.setSig("fault-markdisrupted")
 	default:
@@ -794,6 +838,9 @@ func (d *stat) concurrentRound(i int) {
 		n := n
 		if nc := d.claim(n); nc != nil && nc.DeletionTimestamp != nil && d.rng.Intn(2) == 0 {
 			add("finalize:"+n, func() {
+				d.mu.Lock()
+				d.midflightRemoval = true
+				d.mu.Unlock()
 				d.guard("lifecycle.finalize", func() { finalizeClaim(e, n) })
 				d.guard("informer", func() { _ = d.w.deliver(world.Request{Kind: "NodeClaim", Name: n}) })
 			})
@@ -897,6 +944,20 @@ func (d *stat) settle() {
 		if res := reservedOf(d.e.Cluster.NodePoolState); res[p] > 0 {
 			cause = "leaked-reservation" // nothing is in flight, yet the pool's reservation counter is positive
 		}
+		d.mu.Lock()
+		if cause == "leaked-reservation" {
+			for _, f := range d.mdFaults {
+				if f.Fired {
+					d.failedDriftStart = true // also covers 409s, which the disruption controller swallows as a requeue
+				}
+			}
+			if d.failedDriftStart {
+				cause += ":after-failed-drift-start"
+			} else {
+				cause += ":no-failed-drift-start"
+			}
+		}
+		d.mu.Unlock()
 		key := "static-not-settled:" + dir + ":" + cause
 		d.r.Violate(key, fmt.Sprintf("static NodePool %s: %d non-deleting NodeClaims after 40 fault-free rounds, expected min(replicas, limits.nodes)=%d", p, live, want[p]), d.caseDesc,
 			map[string]any{"pool": p, "non_deleting": live, "want": want[p], "state_reserved": reservedOf(d.e.Cluster.NodePoolState)[p], "state": d.snapshot(), "trace": d.traceCopy()})
@@ -999,7 +1060,7 @@ func runStatic(r *mon.Report, tier string, idx, ord int, rng *rand.Rand) {
 			replicas = int64(1 + rng.Intn(2))
 			limit = []int64{-1, replicas + 1, replicas + 2}[rng.Intn(3)]
 		case "drift-while-peer-finalises":
-			replicas = int64(1 + rng.Intn(3))
+			replicas = int64(2 + rng.Intn(3))
 			limit = replicas + int64(1+rng.Intn(2))
 			budget = "100%"
 		case "drift-start-fails-then-scale-up":
@@ -1079,6 +1140,17 @@ func runStatic(r *mon.Report, tier string, idx, ord int, rng *rand.Rand) {
 	d.hookOn.Store(false)
 	d.settle()
 
+	if os.Getenv("VERIF_C03_TRACE") != "" {
+		fmt.Printf("TRACE case %d shape %s pools %v\n%s\nFINAL %v\n", idx, shape, poolDesc, strings.Join(d.traceCopy(), "\n"), d.snapshot())
+	}
+	{
+		h := fnv.New64a()
+		for _, l := range d.traceCopy() {
+			// controller / event order only (strip generated names)
+			h.Write([]byte(nameRe.ReplaceAllString(l, "*")))
+		}
+		r.DistinctAdd("static_histories", fmt.Sprintf("%x", h.Sum64()))
+	}
 	d.mu.Lock()
 	sigs := common.SortedKeys(d.sig)
 	nontrivial := d.createChecks > 0
@@ -1131,15 +1203,14 @@ func (d *stat) shapeLastClaim() {
 			d.setSig("fault-nodepool-get")
 		}
 	}
-	at := d.rng.Intn(3)
-	d.script = make([]func(), at+1)
-	d.script[at] = func() {
+	sc := &scripted{at: d.rng.Intn(4), f: func() {
 		d.step("  %s finishes terminating while the provisioning reconcile is in flight", last)
 		d.finalizeAndNotify(last)
-	}
+	}}
+	d.script = []*scripted{sc}
 	d.scriptAt = 0
 	d.r.Inc("static_shape_last_claim")
-	d.step("static provisioning %s with scripted interleaving at hooked call %d", pool, at)
+	d.step("static provisioning %s with scripted interleaving at hooked call %d", pool, sc.at)
 	d.stepProv(pool)
 	d.script = nil
 	e.API.ClearFaults()
@@ -1188,30 +1259,42 @@ func (d *stat) shapeDriftPeer() {
 	d.stepNCDisruption(cand)
 	d.fullSync()
 	d.step("candidate %s drifted, peers terminating %v: %v", cand, peers, d.snapshot())
-	// script: at PRNG-chosen hooked calls of the disruption reconcile the peers finish and static provisioning runs
-	nHooks := 4 + d.rng.Intn(10)
-	d.script = make([]func(), nHooks+2)
-	a := d.rng.Intn(nHooks + 1)
-	b := a + d.rng.Intn(2)
-	d.script[a] = func() {
+	// script: while the disruption reconcile is in flight the peers finish terminating (A) and static
+	// provisioning reconciles (B, same hooked call or the next); the calls are PRNG-chosen by index or by kind
+	// (the NodePool read / NodeClaim create of the replacement)
+	finish := func() {
 		for _, n := range peers {
 			d.step("  peer %s finishes terminating while the drift command starts", n)
 			d.finalizeAndNotify(n)
 		}
-		if b == a {
-			d.step("  static provisioning %s runs", pool)
-			d.stepProv(pool)
-		}
 	}
-	if b != a {
-		d.script[b] = func() {
-			d.step("  static provisioning %s runs", pool)
-			d.stepProv(pool)
-		}
+	reprov := func() {
+		d.step("  static provisioning %s runs", pool)
+		d.stepProv(pool)
 	}
+	a, b := &scripted{at: -1, f: finish}, &scripted{at: -1, f: reprov}
+	how := ""
+	switch d.rng.Intn(4) {
+	case 0:
+		a.pred, b.pred, how = isNodePoolGet, isNodePoolGet, "both at the replacement's NodePool read"
+	case 1:
+		a.pred, b.pred, how = isNodePoolGet, isNodeClaimCreate, "NodePool read, then NodeClaim create"
+	case 2:
+		a.pred, b.pred, how = isNodeClaimCreate, isNodeClaimCreate, "both at the replacement's NodeClaim create"
+	default:
+		a.at = d.rng.Intn(18)
+		b.at = a.at + d.rng.Intn(2)
+		how = fmt.Sprintf("hooked calls %d,%d", a.at, b.at)
+	}
+	if d.rng.Intn(4) == 0 {
+		// variant: the peers keep terminating, only static provisioning reconciles inside the window
+		a.f = func() {}
+		how += " (peers do not finish)"
+	}
+	d.script = []*scripted{a, b}
 	d.scriptAt = 0
 	d.r.Inc("static_shape_drift_peer")
-	d.step("disruption reconcile with scripted interleavings at hooked calls %d,%d", a, b)
+	d.step("disruption reconcile with scripted interleavings: %s", how)
 	d.stepDisrupt()
 	d.script = nil
 	d.countCheck("after shape drift-peer", "")
@@ -1242,9 +1325,11 @@ func (d *stat) shapeDriftStartFails() {
 	}
 	d.fullSync()
 	kind := faultKinds[d.rng.Intn(len(faultKinds))]
-	e.API.SetFaults(&world.Fault{AtCall: 1, Kind: kind, Sticky: true, Match: func(verb, k, caller string) bool {
+	mdf := &world.Fault{AtCall: 1, Kind: kind, Sticky: true, Match: func(verb, k, caller string) bool {
 		return (verb == "status-patch" && k == "NodeClaim" && strings.Contains(caller, "markDisrupted")) || (verb == "patch" && k == "Node" && strings.Contains(caller, "RequireNoScheduleTaint"))
-	}})
+	}}
+	d.mdFaults = append(d.mdFaults, mdf)
+	e.API.SetFaults(mdf)
 	d.setSig("fault-markdisrupted")
 	d.r.Inc("static_shape_drift_start_fails")
 	rounds := 1 + d.rng.Intn(2)
